@@ -342,4 +342,211 @@ theorem deserialize_sections_valid (doc : PyVal) (ci : ComposeInfo) (h : deseria
     · exact (releaseDe03_valid _ _ hr).1
     · exact releaseDe_valid _ _ _ hr
 
+mutual
+/-- every variant passes the (generated) `Variant` validators against the parent it hangs under: id syntax, UID aligned with the
+parent's UID (with the id at top level), name, type, non-empty arches contained in the parent's, container keys -/
+def ValidV (ctx : Ctx) : Variant → Prop
+  | .mk key id uid name type arches paths rel kids =>
+    validateClass "composeinfo.Variant" (variantObj ctx (.mk key id uid name type arches paths rel kids)) = .ok ()
+    ∧ (∀ r, rel = some r → validateClass "composeinfo.Release" (releaseObj r) = .ok ())
+    ∧ ValidVs (some (uid, Str.sortDedup arches)) kids
+def ValidVs (ctx : Ctx) : List Variant → Prop
+  | [] => True
+  | v :: vs => ValidV ctx v ∧ ValidVs ctx vs
+end
+
+theorem ValidVs_of (ctx : Ctx) : ∀ vs : List Variant, (∀ v ∈ vs, ValidV ctx v) → ValidVs ctx vs
+  | [], _ => trivial
+  | v :: vs, h => ⟨h v List.mem_cons_self, ValidVs_of ctx vs (fun w hw => h w (List.mem_cons_of_mem _ hw))⟩
+
+theorem variantReleaseDeL_valid (g : Gates) (t d : PyVal) (rel : Option Release) (h : variantReleaseDeL g t d = .ok rel) :
+    ∀ r, rel = some r → validateClass "composeinfo.Release" (releaseObj r) = .ok () := by
+  unfold variantReleaseDeL at h
+  split at h
+  · cases hr : releaseDeL g d with
+    | error e => rw [hr] at h; cases h
+    | ok r0 =>
+      rw [hr] at h
+      injection h with h
+      subst h
+      intro r hr'
+      injection hr' with hr'
+      subst hr'
+      unfold releaseDeL at hr
+      split at hr
+      · exact (releaseDe03_valid _ _ hr).1
+      · exact releaseDe_valid _ _ _ hr
+  · injection h with h
+    subst h
+    intro r hr
+    cases hr
+
+theorem buildL_valid (g : Gates) (full : PyVal) : ∀ (fuel : Nat) (ctx : Ctx) (vuid : Str) (v : Variant),
+    buildL g full fuel ctx vuid = .ok v → ValidV ctx v := by
+  intro fuel
+  induction fuel with
+  | zero => intro ctx vuid v h; simp [buildL] at h
+  | succ n ih =>
+    intro ctx vuid v h
+    unfold buildL at h
+    repeat' (first | split at h | dsimp only at h)
+    all_goals first | (cases h; done) | skip
+    have hcollect := ‹collect _ = Except.ok _›
+    have hadd := ‹addAll [] _ = Except.ok _›
+    have hval := ‹validateClass "composeinfo.Variant" _ = Except.ok PUnit.unit›
+    have hrel := variantReleaseDeL_valid g _ _ _ ‹variantReleaseDeL g _ _ = Except.ok _›
+    injection h with h
+    subst h
+    refine ⟨hval, hrel, ?_⟩
+    rw [sortDedup_idem]
+    obtain ⟨e, _⟩ := addAll_spec _ [] _ hadd (fun b hb => by
+      have hm := collect_mem hcollect b hb
+      obtain ⟨k, _, hk⟩ := List.mem_map.mp hm
+      exact (buildL_wellKeyed g full _ _ _ b hk).1) (by simp)
+    simp only [List.nil_append] at e
+    subst e
+    apply ValidVs_of
+    intro b hb
+    have hm := collect_mem hcollect b hb
+    obtain ⟨k, _, hk⟩ := List.mem_map.mp hm
+    exact ih _ _ b hk
+
+theorem variantsDeL_valid (g : Gates) (payload : PyVal) (vs : List Variant) (h : variantsDeL g payload = .ok vs) :
+    ValidVs none vs := by
+  unfold variantsDeL at h
+  repeat' (first | split at h | dsimp only at h)
+  all_goals first | (cases h; done) | skip
+  all_goals
+    have hcollect := ‹collect _ = Except.ok _›
+    obtain ⟨e, _⟩ := addAll_spec _ [] _ h (fun b hb => by
+      have hm := collect_mem hcollect b hb
+      obtain ⟨k, _, hk⟩ := List.mem_map.mp hm
+      exact (buildL_wellKeyed g _ _ _ _ b hk).1) (by simp)
+    simp only [List.nil_append] at e
+    subst e
+    apply ValidVs_of
+    intro b hb
+    have hm := collect_mem hcollect b hb
+    obtain ⟨k, _, hk⟩ := List.mem_map.mp hm
+    exact buildL_valid g _ _ _ _ b hk
+
+theorem baseDe_valid (p : PyVal) (b : BaseProduct) (h : baseDe p = .ok b) :
+    validateClass "composeinfo.BaseProduct" (baseObj (some b)) = .ok () := by
+  unfold baseDe at h
+  repeat' (first | split at h | dsimp only at h)
+  all_goals first | (cases h; done) | skip
+  all_goals
+    injection h with h
+    subst h
+    simp only [asStr_iff] at *
+    subst_vars
+    exact ‹validateClass "composeinfo.BaseProduct" _ = Except.ok PUnit.unit›
+
+/-- **every variant of every loaded compose description is valid against its parent**, and the base product of a layered
+release was read and validates -/
+theorem deserialize_forest_valid (doc : PyVal) (ci : ComposeInfo) (h : deserialize doc = .ok ci) :
+    ValidVs none ci.variants
+    ∧ (ci.release.isLayered = true → ∃ b, ci.base = some b ∧ validateClass "composeinfo.BaseProduct" (baseObj (some b)) = .ok ())
+    ∧ (ci.release.isLayered = false → ci.base = none) := by
+  unfold deserialize at h
+  repeat' (first | split at h | dsimp only at h)
+  all_goals first | (cases h; done) | skip
+  have hv := ‹variantsDeL _ _ = Except.ok _›
+  have hb := ‹baseDeIf _ _ = Except.ok _›
+  injection h with h
+  subst h
+  refine ⟨variantsDeL_valid _ _ _ hv, ?_, ?_⟩
+  · intro hl
+    simp only at hl
+    unfold baseDeIf at hb
+    rw [if_pos hl] at hb
+    split at hb
+    · cases hb
+    · rename_i b hbd
+      injection hb with hb
+      exact ⟨b, hb.symm, baseDe_valid _ _ hbd⟩
+  · intro hl
+    simp only at hl
+    unfold baseDeIf at hb
+    rw [if_neg (by simp [hl])] at hb
+    injection hb with hb
+    exact hb.symm
+
+
+/-- **top level by prefix = top level by explicit references**, exactly when "referenced as a child" and "the part before the
+last dash is a key" say the same of every key -/
+theorem tops_legacy_eq (keys cs : List Str)
+    (h : ∀ u ∈ keys, cs.contains u = true ↔ ∃ hd, legacyHead u = some hd ∧ keys.contains hd = true) :
+    keys.filter (isLegacyTop keys) = keys.filter (fun u => !cs.contains u) := by
+  apply List.filter_congr
+  intro u hu
+  show isLegacyTop keys u = !cs.contains u
+  unfold isLegacyTop
+  cases hl : legacyHead u with
+  | none =>
+    have : cs.contains u = false := by
+      cases hc : cs.contains u with
+      | false => rfl
+      | true => obtain ⟨hd, h1, _⟩ := (h u hu).mp hc; rw [hl] at h1; cases h1
+    simp only [this, Bool.not_false]
+  | some hd =>
+    cases hk : keys.contains hd with
+    | true =>
+      have : cs.contains u = true := (h u hu).mpr ⟨hd, hl, hk⟩
+      simp only [this, hk, Bool.not_true]
+    | false =>
+      have : cs.contains u = false := by
+        cases hc : cs.contains u with
+        | false => rfl
+        | true =>
+          obtain ⟨hd', h1, h2⟩ := (h u hu).mp hc
+          rw [hl] at h1; injection h1 with h1; subst h1; rw [hk] at h2; cases h2
+      simp only [this, hk, Bool.not_false]
+
+theorem lt_append_left (p : Str) {a b : Str} (h : a < b) : p ++ a < p ++ b := by
+  induction p with
+  | nil => exact h
+  | cons c cs ih => exact List.Lex.cons ih
+
+theorem sorted_map_prefix (p : Str) : ∀ {l : List Str}, SSorted l → SSorted (l.map (p ++ ·)) := by
+  intro l h
+  unfold SSorted at *
+  exact List.pairwise_map.mpr (h.imp (fun hab => lt_append_left p hab))
+
+/-- **children by prefix = children by explicit list**: in a table whose keys are in sorted order, the keys that start with
+`vuid-` are exactly `vuid-i` for the listed ids `i` (in the reader's order, `sorted(ids)`), provided nothing else starts with
+`vuid-` and every listed child is there -/
+theorem kids_legacy_eq (full : PyVal) (vuid : Str) (ids : List Str) (hs : SSorted full.keys)
+    (hex : ∀ k ∈ full.keys, Str.startsWith k (vuid ++ ['-']) = true ↔ ∃ i ∈ ids, k = vuid ++ '-' :: i)
+    (hin : ∀ i ∈ ids, vuid ++ '-' :: i ∈ full.keys) :
+    prefixKids full vuid = (Str.sortDedup ids).map fun i => vuid ++ '-' :: i := by
+  have h1 : SSorted (prefixKids full vuid) := by
+    unfold prefixKids SSorted
+    exact List.Pairwise.filter _ hs
+  have h2 : SSorted ((Str.sortDedup ids).map fun i => vuid ++ '-' :: i) := by
+    have := sorted_map_prefix (vuid ++ ['-']) (sortDedup_sorted ids)
+    simpa [List.append_assoc] using this
+  apply sorted_ext h1 h2
+  intro x
+  simp only [prefixKids, List.mem_filter, List.mem_map, mem_sortDedup]
+  constructor
+  · rintro ⟨hk, hp⟩
+    obtain ⟨i, hi, rfl⟩ := (hex x hk).mp hp
+    exact ⟨i, hi, rfl⟩
+  · rintro ⟨i, hi, rfl⟩
+    exact ⟨hin i hi, (hex _ (hin i hi)).mpr ⟨i, hi, rfl⟩⟩
+
+/-- the child keys the legacy reader finds for an entry WITHOUT a `variants` list are the child keys the current reader finds
+for the same entry WITH the list — sorted table, nothing else under the prefix, every listed child present -/
+theorem kidKeys_faithful (g : Gates) (hg : g.variant = true) (full data data' : PyVal) (vuid : Str) (ids : List Str)
+    (hd : data.get? k%"variants" = some (strList ids)) (hd' : data'.get? k%"variants" = none)
+    (hs : SSorted full.keys)
+    (hex : ∀ k ∈ full.keys, Str.startsWith k (vuid ++ ['-']) = true ↔ ∃ i ∈ ids, k = vuid ++ '-' :: i)
+    (hin : ∀ i ∈ ids, vuid ++ '-' :: i ∈ full.keys) :
+    kidKeysL g full data' vuid vuid = kidKeysL Gates.current full data vuid vuid := by
+  unfold kidKeysL kidIdsOf
+  simp only [hd, hd', hg, if_true, asStrList_strList]
+  rw [kids_legacy_eq full vuid ids hs hex hin]
+
+
 end PM.CI.Legacy
